@@ -173,7 +173,7 @@ class C14(Check):
                 yield c
 
     def strategy(self, tier):
-        base = fixlib.fix_case(tier=tier, rules=st.just("layout"), gsql_features={"comments": True}, comments_inside=True)
+        base = fixlib.fix_case(tier=tier, rules=st.just("layout"), gsql_features={"comments": True, "multi_cte": True}, comments_inside=True)
         return st.tuples(base, layout_config()).map(lambda t: dict(t[0], rule_configs=t[1]))
 
     def examples(self, tier):
